@@ -27,4 +27,52 @@ func init() {
 		Functions: []string{"timesafeguard.timeResult.worstCaseDrift", "timesafeguard.timeInSync", "timesafeguard.synchronizedWithNetwork", "timesafeguard.(*timeResult).String"},
 		Rule:      "one case per number of peers and per feasible path through synchronizedWithNetwork; a case is non-trivial when a feasible path reaches at least one assertion",
 	})
+
+	registerCheck(&CheckDef{
+		ID: "C09",
+		Runs: func(tier string) []HarnessRun {
+			p := map[string]int{"entries": 2, "stable": 1}
+			if tier == "thorough" {
+				p = map[string]int{"entries": 3, "stable": 2}
+			}
+			return []HarnessRun{{Name: "leveldbstore", Pkg: "internal/raftstore", PkgName: "raftstore",
+				Files: []string{"raftstore/c09.go"}, APIs: []string{"ldb"}, Entry: "verifHarness_C09", Params: p, Unwind: 8}}
+		},
+		Assumptions: []string{
+			"goleveldb is an ordered key/value store with atomic batches (engine model, DESIGN §5.1); durability across close/reopen and corruption recovery are trusted, not modelled",
+			"protobuf and JSON libraries round-trip a message struct (abstract codec: Marshal yields an opaque blob bound to a deep copy of the message)",
+			"log indexes below 0x7300000000000000 (log keys sort before the stable-store prefix) and DeleteRange max < 2^64-1: inputs no caller passes",
+			"GetUint64 is only applied to keys written by SetUint64",
+		},
+		Bounds: func(tier string) map[string]interface{} {
+			if tier == "thorough" {
+				return map[string]interface{}{"log_entries_in_store": 3, "stable_keys_in_store": 2, "payload_bytes": 2, "operations": "one per obligation (refinement step from an arbitrary corresponding state)"}
+			}
+			return map[string]interface{}{"log_entries_in_store": 2, "stable_keys_in_store": 1, "payload_bytes": 2, "operations": "one per obligation (refinement step from an arbitrary corresponding state)"}
+		},
+		Outside:   []string{"close/reopen, kill/reopen, corruption recovery (LevelDB durability)", "JSON and protobuf byte formats", "ConvertToProto on a populated JSON database (needs the real decoders)"},
+		Functions: []string{"raftstore.(*LevelDBStore).FirstIndex", "LastIndex", "GetLog", "StoreLog", "StoreLogs", "StoreLogProto", "DeleteRange", "GetBulkIterator", "Set", "Get", "SetUint64", "GetUint64"},
+		Rule:      "one case per store operation and encoding; a case is non-trivial when a feasible path reaches the probing assertions",
+	})
+	registerCheck(&CheckDef{
+		ID: "C18",
+		Runs: func(tier string) []HarnessRun {
+			p := map[string]int{"msgs": 2, "data": 3, "rcpt": 2}
+			if tier == "thorough" {
+				p = map[string]int{"msgs": 3, "data": 4, "rcpt": 3}
+			}
+			return []HarnessRun{{Name: "outputbatch", Pkg: "internal/outputstream", PkgName: "outputstream",
+				Files: []string{"outputstream/c18.go"}, Entry: "verifHarness_C18_batch", Params: p, Unwind: 12}}
+		},
+		Assumptions: []string{"recipient values are true (the only value the server stores)"},
+		Bounds: func(tier string) map[string]interface{} {
+			if tier == "thorough" {
+				return map[string]interface{}{"messages": 3, "data_bytes": 4, "recipients": 3}
+			}
+			return map[string]interface{}{"messages": 2, "data_bytes": 3, "recipients": 2}
+		},
+		Outside:   []string{"protobuf and JSON wire formats (reflection-driven libraries)", "longer payloads / more messages than the bound"},
+		Functions: []string{"outputstream.(*messageBatch).marshal", "outputstream.unmarshalMessageBatch", "encoding/binary.littleEndian.PutUint64", "encoding/binary.littleEndian.Uint64"},
+		Rule:      "one case per (message count, recipient counts, payload lengths); non-trivial when the round-trip assertions are reached",
+	})
 }
